@@ -29,8 +29,8 @@ def noninterference(nsync, neph, planted=None):
         for i in range(neph):
             if not e.choice(f'ereq{i}', 2): break
             who = ['e1', 'e3'][e.choice(f'ewho{i}', 2)]
-            kind = e.choice(f'ekind{i}', 3)
-            mid = Z.MSG_ID_CLOSE if kind == 2 else e.fresh_int(f'emid{i}', -1)
+            kind = e.choice(f'ekind{i}', 4)      # request / request flagged new / CLOSE / out-of-band message
+            mid = Z.MSG_ID_CLOSE if kind == 2 else Z.MSG_ID_OOB if kind == 3 else e.fresh_int(f'emid{i}', -1)
             pos = e.choice(f'epos{i}', len(sync_reqs) + 1)
             eph_reqs.append((pos, (who, mid, 1, kind == 1)))
         has_state = e.choice('state', 2)
@@ -145,7 +145,7 @@ def harnesses(tier):
     hs = [
         Harness('c05.send_noninterference', noninterference(2, 1), twin=noninterference(1, 1, planted=True),
                 bounds={'clients': '1-2 sync + 0-1 ephemeral in table, all fields symbolic', 'sync requests': '<=2', 'ephemeral requests': '<=1',
-                        'ephemeral kinds': 'request / new / CLOSE from known or unknown ephemeral client, ids unbounded', 'interleaving position': 'symbolic'},
+                        'ephemeral kinds': 'request / new / CLOSE / out-of-band from known or unknown ephemeral client, ids unbounded', 'interleaving position': 'symbolic'},
                 functions=fn, stubs=stubs, assumptions=assume, budget_s=1200),
         Harness('c05.recv_mixed', recv_mixed(2, 12 if q else 14, 1, forms=[FORMS[0][:1], FORMS[1][:3]] if q else FORMS), twin=recv_mixed(2, 12, 1, planted=True),
                 bounds={'sources': '1 sync + 1 ephemeral (? or ??)', 'forms': '1 x 3' if q else '2 x 4', 'publishes_per_source': 2, 'poll_decisions': 12 if q else 14},
